@@ -66,8 +66,9 @@ def TupleOf(elem, **kw):
     return Shape('tuple', elem=elem, **kw)
 
 
-def Obj(cls, **fields):
-    return Shape('obj', cls=cls, fields=fields)
+def Obj(cls, heap=False, **fields):
+    """symbolic object; heap=True allocates a mutable heap object with symbolic fields"""
+    return Shape('obj', cls=cls, fields=fields, heap=heap)
 
 
 def DictOf(**fields):
